@@ -2,8 +2,9 @@ import Solvor.Common.Proto
 import Solvor.Search.Model
 /-! Search: line-protocol handler. One request line in, one reply line out.
 
-request `["run", solver, minimize, fs, starts, coins, params, tol, cands, implObj, implFSol, implEvals, bounds, point]`
+request `["run", solver, orig, minimize, fs, starts, coins, params, tol, cands, implObj, implFSol, implEvals, bounds, point]`
   solver   : "anneal" | "tabu" | "lns" | "alns" | "evolve" | "de" | "pso" | "bayes" | "nm"
+  orig     : true = replay `lns` with the rule of the unchanged tree (`lnsStepOrig`) instead of the repaired one
   fs       : every value the recording proxy saw, in call order, user's sign (rationals)
   starts   : objective at the start point(s) handed to the solver (user's sign)
   coins    : one Bool per evaluation index (accept decision observed for that candidate; padded with false)
@@ -47,7 +48,7 @@ def reply (m : Bool) (c : Core) (trace : List Nat) (iters : Nat) (o : Core) : Li
   [Val.ofRat oc.objective, Val.int oc.solIdx, Val.int oc.evaluations, Val.ofNats trace, Val.int iters,
    Val.ofRat oo.objective, Val.int oo.solIdx]
 
-def runSolver (solver : String) (m : Bool) (fs : Array Rat) (coins : Array Bool) (ps : List Nat)
+def runSolver (solver : String) (orig : Bool) (m : Bool) (fs : Array Rat) (coins : Array Bool) (ps : List Nat)
     (tol : Rat) (cands : List (List Nat)) : Option (List Val) :=
   let val : Nat → Rat := internal m (fun k => fs.getD k 0)
   let coin : Nat → Bool := fun k => coins.getD k false
@@ -61,7 +62,8 @@ def runSolver (solver : String) (m : Bool) (fs : Array Rat) (coins : Array Bool)
         let s' := tabuStep val cooldown mni stopAt p.1 ms; (s', s'.curIdx :: p.2)) (tabuInit val, [])
     some (reply m s.core tr.reverse s.iteration s.core)
   | "lns", [a, maxIter, mni, stopAt] =>
-    let (s, tr) := iterTraceD (lnsStep val coin (accOf a) mni stopAt) (·.curIdx) (·.done) maxIter (lnsInit val) []
+    let step := if orig then lnsStepOrig val coin (accOf a) mni stopAt else lnsStep val coin (accOf a) mni stopAt
+    let (s, tr) := iterTraceD step (·.curIdx) (·.done) maxIter (lnsInit val) []
     let o := lnsRun true val coin (accOf a) maxIter mni stopAt
     some (reply m s.core tr s.iteration o.core)
   | "alns", [a, maxIter, mni, stopAt] =>
@@ -91,12 +93,12 @@ def toPair? (v : Val) : Option (Rat × Rat) :=
 
 def handle (line : String) : String :=
   match request line with
-  | some ("run", [solver, m, fs, starts, coins, ps, tol, cands, iobj, ifsol, ievals, bounds, point]) =>
-    match solver.toStr?, m.toBool?, fs.toRats?, starts.toRats?, coins.toArr?, ps.toNats?, tol.toOpt? Val.toRat?,
+  | some ("run", [solver, orig, m, fs, starts, coins, ps, tol, cands, iobj, ifsol, ievals, bounds, point]) =>
+    match solver.toStr?, orig.toBool?, m.toBool?, fs.toRats?, starts.toRats?, coins.toArr?, ps.toNats?, tol.toOpt? Val.toRat?,
           cands.toNatss?, iobj.toRat?, ifsol.toRat?, ievals.toNat? with
-    | some solver, some m, some fs, some starts, some coins, some ps, some tol, some cands, some iobj, some ifsol,
+    | some solver, some orig, some m, some fs, some starts, some coins, some ps, some tol, some cands, some iobj, some ifsol,
       some ievals =>
-      match coins.mapM Val.toBool?, runSolver solver m fs.toArray ((coins.filterMap Val.toBool?).toArray) ps
+      match coins.mapM Val.toBool?, runSolver solver orig m fs.toArray ((coins.filterMap Val.toBool?).toArray) ps
               (tol.getD 0) cands with
       | some _, some out =>
         let chk := checkResult m fs starts iobj ifsol ievals
@@ -109,7 +111,7 @@ def handle (line : String) : String :=
           | _, _ => Val.null
         (Val.arr (out ++ [Val.bool chk, inb])).render
       | _, _ => err "bad solver/params"
-    | _, _, _, _, _, _, _, _, _, _, _ => err "bad arguments"
+    | _, _, _, _, _, _, _, _, _, _, _, _ => err "bad arguments"
   | _ => err "bad request"
 
 end Solvor.Search
